@@ -156,6 +156,10 @@ pub struct Script
     /// return `Err` after queuing this many ops (only for systems with a `Result` return type)
     pub err_after: Option<u8>,
     pub take_twice: bool,
+    /// exclusive systems only: run the dedicated probe system command directly (`SystemCommand::apply(world)`) in the
+    /// middle of the body, before queuing anything
+    #[serde(default)]
+    pub mid_probe: bool,
 }
 
 #[derive(Debug, Clone, PartialEq, Eq, Hash, Serialize, Deserialize)]
@@ -613,7 +617,8 @@ impl<'a, 'p> Dec<'a, 'p>
                 let err_after =
                     if result != ResKind::Unit && self.chance(self.p.p_err) { Some(self.below(n_ops + 1) as u8) } else { None };
                 let take_twice = self.chance(self.p.p_take_twice);
-                scripts.push(Script{ ops, err_after, take_twice });
+                let mid_probe = shape == Shape::Exclusive && self.chance(90);
+                scripts.push(Script{ ops, err_after, take_twice, mid_probe });
             }
         }
         SysDef{ shape, result, reg_mode, scripts }
